@@ -454,6 +454,13 @@ func RunIntegWorld(c *Ctl, prof *IntegProfile, w *IntegWorld, res *RunResult) *i
 	e.tr = tr
 	if w.ViaConfig {
 		if err := e.buildFromConfig(); err != nil {
+			if strings.Contains(err.Error(), "cycle detected") {
+				// acyclic by construction, yet rejected by the real builder (C05 territory): skipped
+				res.Skipped = "rejected_acyclic: " + err.Error()
+				c.Count("rejected_acyclic")
+				os.RemoveAll(e.tmpDir)
+				return nil
+			}
 			res.HarnessErr = "config: " + err.Error()
 			return nil
 		}
